@@ -861,6 +861,9 @@ static Node *declaration(Token **rest, Token *tok, Type *basety, VarAttr *attr) 
     if (attr && attr->is_static) {
       // static local variable
       Obj *var = new_anon_gvar(ty);
+      var->is_tls = attr->is_tls;
+      if (attr->align)
+        var->align = attr->align;
       push_scope(get_ident(ty->name))->var = var;
       if (equal(tok, "="))
         gvar_initializer(&tok, tok->next, var);
@@ -3486,10 +3489,14 @@ static Token *global_variable(Token *tok, Type *basety, VarAttr *attr) {
     if (attr->align)
       var->align = attr->align;
 
-    if (equal(tok, "="))
+    if (equal(tok, "=")) {
+      // A declaration with an initializer is a definition even if it
+      // is declared extern.
       gvar_initializer(&tok, tok->next, var);
-    else if (!attr->is_extern && !attr->is_tls)
+      var->is_definition = true;
+    } else if (!attr->is_extern) {
       var->is_tentative = true;
+    }
   }
   return tok;
 }
